@@ -23,6 +23,23 @@ EXPLANATION = (
 MOD = 'spatialpandas.dask'
 
 
+def narrow_casts(P, R, rule, extra=()):
+    """No narrowing of the distances between the curve kernel and the caller (they need 2*p bits; p up to 31)."""
+    narrow = ('int32', 'int16', 'int8', 'uint32', 'uint16', 'uint8', 'float32', 'float16')
+    path = list(extra) + [P.func('spatialpandas.geometry.base', 'GeometryArray.hilbert_distance'), P.func('spatialpandas.geoseries', 'GeoSeries.hilbert_distance'),
+                          P.func('spatialpandas.spatialindex.rtree', '_distances_from_bounds'), P.func('spatialpandas.spatialindex.hilbert_curve', 'distances_from_coordinates')]
+    ncast = 0
+    for f in path:
+        for c2 in ast.walk(f.node):
+            if isinstance(c2, ast.Call) and ((isinstance(c2.func, ast.Attribute) and c2.func.attr == 'astype') or any(k.arg == 'dtype' for k in c2.keywords)):
+                txt = norm(c2)
+                ncast += 1
+                bad = [t for t in narrow if t in txt.split('astype')[-1] or f'dtype=np.{t}' in txt or f"dtype='{t}'" in txt]
+                R.check(not bad, rule, f, c2, 'distance values keep 64-bit width on their way to the caller / into the index',
+                        f'`{txt}` narrows the Hilbert distances to {bad}: they need 2*p bits and wrap around for larger p, so rows are indexed and ordered by wrong values')
+    R.count('casts_checked', ncast)
+
+
 def run(P, R, tier):
     pp = P.func(MOD, 'DaskGeoDataFrame.pack_partitions')
     wh = P.func(MOD, 'DaskGeoDataFrame._with_hilbert_distance_column')
@@ -93,20 +110,10 @@ def run(P, R, tier):
     rets = [s for s in walk_own(pp.node) if isinstance(s, ast.Return)]
     okret = bool(rets) and all(isinstance(s.value, ast.Name) and isinstance(c.func.value, ast.Name) and s.value.id == c.func.value.id for s in rets)
     R.check(okret, 'C09.b', pp, rets[0] if rets else None, 'the packed frame is returned', 'the returned frame is not the packed one')
-    # no narrowing of the distances on their way into the index (they need 2*p bits, p up to 20 here and 31 in C08)
-    narrow = ('int32', 'int16', 'int8', 'uint32', 'uint16', 'uint8', 'float32', 'float16')
-    path = [wh] + list(wh.lambdas) + [pp, P.func('spatialpandas.geometry.base', 'GeometryArray.hilbert_distance'), P.func('spatialpandas.geoseries', 'GeoSeries.hilbert_distance'),
-                                      P.func('spatialpandas.spatialindex.rtree', '_distances_from_bounds'), P.func('spatialpandas.spatialindex.hilbert_curve', 'distances_from_coordinates')]
-    ncast = 0
-    for f in path:
-        for c2 in ast.walk(f.node):
-            if isinstance(c2, ast.Call) and ((isinstance(c2.func, ast.Attribute) and c2.func.attr == 'astype') or any(k.arg == 'dtype' for k in c2.keywords)):
-                txt = norm(c2)
-                ncast += 1
-                bad = [t for t in narrow if t in txt.split('astype')[-1] or f'dtype=np.{t}' in txt or f"dtype='{t}'" in txt]
-                R.check(not bad, 'C09.a', f, c2, 'distance values keep 64-bit width on their way into the index',
-                        f'`{txt}` narrows the Hilbert distances to {bad}: they need 2*p bits and wrap around for larger p, so rows are indexed and ordered by wrong values')
-    R.count('casts_checked', ncast)
+    narrow_casts(P, R, 'C09.a', [wh] + list(wh.lambdas) + [pp])
+    from rules import common as _common
+    _common.forward(P, R, 'C08', ['C08.*'], 'C09.a', 'rows are indexed by their Hilbert distance (C08) against the frame total bounds', floor=10)
+    _common.forward(P, R, 'C06', ['C06.b'], 'C09.a', 'the frame-level total bounds every partition measures against (Dask total_bounds)', floor=2)
     # a filtered frame must not inherit the parent's cached partition bounds (they define the frame-level total_bounds)
     from rules import C12
     sub = type(R)(R.prop, R.tier)
